@@ -67,6 +67,7 @@ func checkMain(args []string) int {
 		fmt.Fprintln(os.Stderr, "machinery error:", err)
 		return 2
 	}
+	clauseFilterProp = prop // ext_propfilter.go: clauses of the verified function that belong only to other properties are left out
 	funcs := eng.contracts.funcsWithProp(prop)
 	var lemmas []*Lemma
 	for _, l := range eng.contracts.Lemmas {
@@ -83,6 +84,12 @@ func checkMain(args []string) int {
 	outDir := filepath.Join(*verif, "out", fmt.Sprintf("%s-%s-%d", prop, *tier, os.Getpid()))
 	os.MkdirAll(outDir, 0o755)
 	opts := solveOpts{outDir: outDir, quickS: 20, retryS: 60, seed: seed, keep: *keep}
+	opts.known = map[string]bool{}
+	for _, k := range loadKnown(filepath.Join(*verif, "known_findings.json")).Findings {
+		if k.Property == prop {
+			opts.known[k.Obligation] = true
+		}
+	}
 	if *tier == "thorough" {
 		opts.quickS, opts.retryS = 60, 180
 	}
@@ -174,6 +181,7 @@ func checkMain(args []string) int {
 			assumptions["warning: "+w] = true
 		}
 		for _, ob := range u.fc.obls {
+			replayFc[ob] = u.fc // replay_run.go needs the verification context of a failed obligation
 			tagged := false
 			for _, p := range ob.Props {
 				if p == prop {
@@ -232,9 +240,15 @@ func checkMain(args []string) int {
 	for _, d := range deadNotes {
 		assumptions["note: unreachable return (dead code or contradictory path assumptions): "+d] = true
 	}
-	if len(eng.staleErrs) > 0 {
+	// Contract clauses that no longer match the code (a named local, loop or closure is gone) were dropped while the obligations were
+	// generated. If obligations that used to be discharged now fail, that is reported as the violation it is (the proof of the
+	// property no longer goes through on this tree); only when nothing fails is the mismatch itself the result: no verdict.
+	if len(eng.staleErrs) > 0 && len(violations) == 0 {
 		fmt.Fprintln(os.Stderr, "machinery error: contracts do not match the code (see above); no verdict")
 		return 2
+	}
+	for _, s := range eng.staleErrs {
+		assumptions["note: contract clause dropped because it no longer matches the code: "+s] = true
 	}
 	if total == 0 {
 		fmt.Fprintln(os.Stderr, "machinery error: zero obligations generated")
@@ -344,7 +358,7 @@ func writeReplay(path, prop string, ob *Obligation, eng *Engine, repo, verif str
 		"solver_output": truncate(r.Raw, 20000),
 	}
 	reproduced := false
-	if r.Verdict == "sat" && r.Model != "" {
+	if (r.Verdict == "sat" && r.Model != "") || replayCandidate(ob) {
 		rec["model"] = truncate(r.Model, 20000)
 		ok, detail := tryReplay(eng, ob, r.Model, repo, verif)
 		rec["replay"] = detail
@@ -379,9 +393,9 @@ func replayMain(prop, path, repo, verif string) int {
 	if t, ok := rec["replay"].(map[string]any); ok {
 		if src, ok := t["test_source"].(string); ok {
 			pkg, _ := t["package"].(string)
-			okRun, out := runOverlayTest(repo, pkg, src, "TestGovcReplay")
+			failedRun, out := runReplayTest(repo, pkg, src)
 			fmt.Println(out)
-			if okRun {
+			if !failedRun {
 				fmt.Println("replay: the real code no longer fails on this input")
 				return 0
 			}
